@@ -135,6 +135,19 @@ def run_histories(r, rng, T, make_session, direct, req_cases, on_request=None):
                         got = np.asarray(ds["g"][idx if len(idx) > 1 else idx[0]]["v"].data)
                         src = np.arange(6, dtype="f8").reshape(2, 3)
                     want = src[tuple(slice(i, i + 1 or None) if isinstance(i, int) else i for i in idx)]
+                    # a read hands out a NEW object: scribbling on it must not show up in the next read of the same region
+                    first = got
+                    got = first.copy()
+                    if first.size and first.flags.writeable:
+                        first[...] = -77
+                    if kind == "array":
+                        again = ds["x"].data[idx if len(idx) > 1 else idx[0]]
+                    else:
+                        again = ds["g"][idx if len(idx) > 1 else idx[0]]["v"].data
+                    if again is first or np.shares_memory(np.asarray(again), first) or not np.array_equal(np.asarray(again), want):
+                        direct.append({"law": "reading a remote variable returns a new object; earlier results and later reads do not alias",
+                                       "index": repr(idx), "kind": kind, "reread": np.asarray(again).tolist(), "want": want.tolist(),
+                                       "history": hi})
                     if got.shape != want.shape or not np.array_equal(got, want):
                         direct.append({"law": "array / grid read returns the numpy selection, whatever was read before",
                                        "index": repr(idx), "got": got.tolist(), "want": want.tolist(), "history": hi})
